@@ -270,12 +270,27 @@ CLAIMED["C20"] = {
     "technique": _T + ": order/entropy/schedule taint classification of every unordered source to its consumer",
 }
 
+CLAIMED["C17"] = {
+    "text": "Decides, for all corpora and settings at once, the clauses of 'the vectorisers equal a naive count of the tokenised corpus' that are visible in the shape of the code - necessary conditions, not the recount: "
+            "fitting and transforming tokenise through the same steps (the normalisation / lower-casing helper with each switch guarding its own action, tokenizer function or regex, n-gram windows with the configured range), so training and unseen documents are counted alike; "
+            "while fitting, the n-grams of one document pass through a set, existing entries gain exactly one and new entries start at one (document frequency counts documents); "
+            "every arm of the vocabulary filter admits exactly min <= df <= max and drops the configured stop words; "
+            "the column written into the word -> column map is the position at which the word is pushed onto vocabulary() (column j is vocabulary()[j]); "
+            "a count goes up by exactly one, at the column stored for the looked-up n-gram (component 0 of (column, document frequency)), only under a successful vocabulary lookup - no fallback value, so out-of-vocabulary n-grams contribute nothing; "
+            "the sparse row pairs each count with an enumerate() column taken before the zero filter, the zero filter drops exactly the zero counts, and the document frequency of the same column is incremented; "
+            "each tf-idf entry is the count times the idf indexed by its own column, computed from (number of transformed documents, that column's document frequency) in this order; "
+            "hand-written Clone impls and builder methods of the vectorisers carry every field. "
+            "Not decided: the recount itself - what the regex or tokenizer function matches, the float-to-count arithmetic of the frequency window, the three idf formulas, which entries a feature cap keeps (the sort key's reproducibility is decided under C20), the order of the vocabulary.",
+    "design_ref": "DESIGN.md section 4, C17",
+    "note": "Trusted: rustc resolution/typeck, the fact dump; HashSet iteration yields each element once; sprs append / iter_mut pair a value with its column index. Claimed late in the build (section 5 explains what changed the earlier not-applicable verdict).",
+    "technique": _T + ": sibling agreement of the fit-time and transform-time tokenisation pipelines, tuple-position provenance of map-value components, enumerate-before-filter, index provenance of multipliers",
+}
+
 NOT_APPLICABLE = {
     "C05": "every clause equates a returned number with a textbook formula over unbounded inputs; no pairing/ordering/agreement structure is necessary for a wrong value, and a frozen-formula matcher would fire on any algebraic refactor (DESIGN.md section 5)",
     "C06": "kernel entry values, symmetry, PSD-ness, dense/sparse agreement and the merge-replay stop rule are relations between computed floating-point values; no sound static argument in reach bounds them (the hash-order cluster numbering in the same file is decided under C20)",
     "C11": "KKT conditions and duality gaps are numerical statements about the solver's fixed point; nothing structural is necessary for them",
     "C15": "quantifies over histories of batches and compares accumulated floating-point statistics; the recurrences are plain arithmetic with no structural invariant short of re-deriving the algebra",
-    "C17": "equality with a naive recount for all corpora and settings is a value-level statement about string processing and thresholds; the one structural sub-clause is an internal-representation rule that would not survive refactoring",
 }
 
 PENDING = ["C02", "C03", "C04", "C07", "C08", "C09", "C10", "C12", "C13", "C14", "C16", "C18", "C19", "C20"]
